@@ -1,6 +1,6 @@
 (* C03 - hard constraints hold at every evaluation.  Statements only. *)
 From Coq Require Import List ZArith Bool.
-From MV Require Import Common.Num Common.Order Core.Machine Core.Machine_Proofs Core.DE Core.DE_Proofs Core.NM Core.NM_Proofs.
+From MV Require Import Common.Num Common.Order Core.Machine Core.Machine_Proofs Core.DE Core.DE_Proofs Core.NM Core.NM_Proofs Core.Powell Core.Powell_Proofs.
 Import ListNotations.
 
 (* solvers that nest the constraints inside the objective (Nelder-Mead, Powell, the abstract solver): every evaluated
@@ -55,6 +55,21 @@ Proof.
   exact (proj1 (proj2 (nm_reported_best N inf Ht Hi cons0 Hid ops sc Hc HP Hs Hn))).
 Qed.
 Print Assumptions C03_nm_result_constrained.
+
+(* Powell, result clause: in every clean run the reported best is a fixed point of the (idempotent) constraints function *)
+Theorem C03_powell_result_constrained :
+  forall (N : Num) (inf : T N), (forall p, is_top N (add N inf p)) ->
+  forall cons0 : vec N -> vec N, (forall x, cons0 (cons0 x) = cons0 x) ->
+  forall (ops : list (op N (pw_in N))) (sc : sys N * pw N),
+  Forall (clean_op N _ (pw_ok_in N) true) ops -> P_pw N inf cons0 (fst sc) (snd sc) ->
+  let r := run N inf _ _ (pw_algo N inf) sc ops in
+  stepmon N (fst r) <> [] ->
+  cons0 (fst (pw_best N inf (snd r))) = fst (pw_best N inf (snd r)).
+Proof.
+  intros N inf Ht cons0 Hid ops sc Hc HP r Hs.
+  exact (proj2 (pw_reported_best N inf Ht cons0 Hid ops sc Hc HP Hs)).
+Qed.
+Print Assumptions C03_powell_result_constrained.
 
 Example C03_instances : forall (N : Num) (inf : T N) t ndim npop ops1 ops2,
   Inv_cons N (fst (run N inf _ _ (nm_algo N inf) (init_sys N inf t, nm_init N inf ndim) ops1)) /\
